@@ -265,6 +265,7 @@ func init() {
 			{Name: "deep", Run: c19Deep},
 			{Name: "readers", Race: true, QShards: 2, TShards: 4, Run: c19Readers},
 			{Name: "wide", TShards: 4, Run: c19Wide},
+			{Name: "parallel", Race: true, Run: treeParallel},
 		},
 	})
 }
